@@ -120,13 +120,9 @@ class PathNode(ConfigList):
         elif ref_point == 'parent':
             if self.ayns.source_file is None:
                 raise ValueError('!path node with :parent reference requires to know source file of the node, but the node is missing this information')
-            src = pathlib.Path(self.ayns.source_file)
-            if ref_point_args >= len(src.parents):
-                diff = ref_point_args - len(src.parents) + 1
-                ref_point_args = len(src.parents) - 1
-                args = ['..'] * diff + args
-
-            ret = src.parents[ref_point_args].joinpath(*args)
+            # go up from the file lexically (the result is normalized below); "parents" of pathlib cannot be used since
+            # for a name like "../configs/file.yaml" it would treat ".." as an ordinary folder with parent "."
+            ret = pathlib.Path(self.ayns.source_file).joinpath(*(['..'] * (ref_point_args + 1)), *args)
         elif ref_point == 'abs':
             ret = pathlib.Path(ref_point_args).joinpath(*args)
         else:
